@@ -74,6 +74,10 @@ def _register(R):
         modifies=[W, "self.__external_buffer_view", "self.__buffer_nbytes_written", "self.__eof_reached", "self.__connection_lost", "self.__read_paused",
                   "self.__transport", "self.__connection_lost_exception", "self.__connection_lost_exception_tb"],
         env={
+            # at every suspension point of the receive: the event loop may write into the caller's buffer only while that caller is
+            # really waiting (its waiter is pending) - otherwise buffer_updated() reports the bytes to nobody (cf. F4)
+            "atomic_inv": [("the-caller's-buffer-is-exposed-to-the-event-loop-only-while-its-waiter-is-pending",
+                            f"implies(not isnone(self.__external_buffer_view), not isnone({W}) and {W}.pending)", "C10")],
             "rely_havoc": ["self.__buffer_nbytes_written", "self.__eof_reached", "self.__connection_lost", "self.__read_paused", "self.__transport",
                            "self.__connection_lost_exception", "self.__external_buffer_view",
                            f"{W}.pending", f"{W}.result_set", f"{W}.exception_set", f"{W}.value"],
